@@ -284,7 +284,14 @@ class ProgramSet(NamedItem):
         for par in self.pars:
             for pop in self.pops:
                 if (par, pop) in self.covouts and code_name in self.covouts[(par, pop)].progs:
-                    del self.covouts[(par, pop)].progs[code_name]
+                    covout = self.covouts[(par, pop)]
+                    del covout.progs[code_name]
+                    # Interaction outcomes involving the removed program can no longer be used (and could not be read back in from a program book)
+                    if covout._interactions:
+                        covout._interactions = {k: v for k, v in covout._interactions.items() if code_name not in k}
+                        tokens = [x for x in covout.imp_interaction.split(",") if code_name not in [y.strip() for y in x.split("=")[0].split("+")]]
+                        covout.imp_interaction = ",".join(tokens) if tokens else None
+                    covout.update_outcomes()  # The cached program ordering, deltas and combinations need to be refreshed
 
     def add_pop(self, code_name: str, full_name: str, pop_type: str = None) -> None:
         """
